@@ -6,6 +6,7 @@
 (*   calls  every set_*_rule / clear_hw_rule that reached the platform in this step, per table key, with        *)
 (*          ok = the key was free (set) / present (clear) just before the call                                  *)
 (*   on     coils whose last software command was enable (RecDriver)                                            *)
+(*   pulsed flipper coils that software pulsed in this step (sw_flip of a two-coil flipper, software EOS repulse)   *)
 (*   mgr    flippers with live software-EOS-repulse switch handlers (mgrok: each has exactly its 4 handlers)    *)
 (*   psu    (switch, coil) of the registered PSU-notification switch handlers                                   *)
 (*   game / ball / tilted   machine.game, player.ball, game.tilted                                              *)
@@ -22,6 +23,7 @@ Obs(e) ==
     /\ \A i \in DOMAIN e.calls : e.calls[i].ok
     /\ s'.calls = {<<c.op, c.sw, c.coil, c.kind>> : c \in SeqToSet(e.calls)} /\ Len(e.calls) = Cardinality(s'.calls)
     /\ {c \in FCoils : s'.on[c]} = SeqToSet(e.on)
+    /\ s'.pulsed = SeqToSet(e.pulsed)
     /\ s'.mgr = SeqToSet(e.mgr) /\ e.mgrok
     /\ SeqToSet(e.psu) = {<<r[1], r[2]>> : r \in {x \in s'.rules : x[1] \notin EosSw}} /\ Len(e.psu) = Cardinality(SeqToSet(e.psu))
     /\ e.tilted = tflag' /\ e.game = (phase' \notin {"noGame", "service"}) /\ (e.game => e.ball = ball')
